@@ -5,7 +5,45 @@ from . import execfam as X
 DEATH_KINDS = ["exit", "kill"]
 
 
+def gen_below_full(rng, tier):
+    """a worker dies while the pool is below its full size (another worker has just left on idle time-out) and a
+    submit() - from the main thread or from a done-callback on the manager thread - tops the pool up again."""
+    model = gen_model(rng)
+    workers = rng.randint(2, 3)
+    timeout = rng.choice([0.05, 0.2])
+    main = [{"op": "create", "ex": "A", "kw": {"max_workers": workers, "timeout": timeout}}, {"op": "start_users"}]
+    fid = 0
+    nlong = rng.randint(1, workers - 1)
+    for _ in range(nlong):
+        main.append(submit_op("A", fid, dict(id=fid, kind="work", dur=rng.choice([1.0, 5.0])), []))
+        fid += 1
+    for _ in range(rng.randint(0, 2)):
+        main.append(submit_op("A", fid, dict(id=fid, kind="work", dur=0), []))
+        if rng.random() < 0.4:
+            main.append({"op": "callback", "f": fid, "mode": "submit"})
+        fid += 1
+    t_leave = model["boot"] + timeout
+    main.append({"op": "sleep", "d": max(0.0, t_leave + rng.choice([-0.001, 0.0, 0.0, 0.001, 0.01]))})
+    for _ in range(rng.randint(1, 2)):
+        main.append(submit_op("A", fid, dict(id=fid, kind="work", dur=rng.choice([0, 0.1])), []))
+        if rng.random() < 0.3:
+            main.append({"op": "callback", "f": fid, "mode": "submit"})
+        fid += 1
+    main.append({"op": "wait_all"})
+    main.append({"op": "submit_expect_error", "ex": "A", "id": 9000})
+    main.append({"op": "wait_all", "which": "all"})
+    if rng.random() < 0.6:
+        main.append({"op": "shutdown", "ex": "A", "wait": True})
+    faults = [dict(kind="kill", target=["w", rng.randrange(workers)], sig=rng.choice([9, 9, 11]),
+                   at=["time", max(0.0, t_leave + rng.choice([-0.002, -0.001, 0.0, 0.0, 0.001, 0.002]))])]
+    kn = focus_hot(rng, gen_knobs(rng, tier), [main])
+    kn["J"] = min(kn["J"], 0.05)
+    return dict(family="death", knobs=kn, model=model, threads=[main], faults=faults, variant="below-full")
+
+
 def gen(rng, tier, sweep=None):
+    if sweep is None and rng.random() < 0.2:
+        return gen_below_full(rng, tier)
     workers = rng.randint(1, 4)
     nthreads = rng.choice([1, 1, 2])
     threads = [[] for _ in range(nthreads)]
@@ -74,9 +112,35 @@ class C02(Prop):
             return spec
         return gen(rng, tier)
 
+    def check_bounded_detection(self, res):
+        """bounded liveness for runs that never quiesce (step cap): a worker killed by the fault engine while the
+        pool was in service must have been noticed within 20 s + 3 J of virtual time, provided the manager thread
+        is in its normal loop (not blocked on a lock or message of a dead process: those are other findings)."""
+        info = res.obs.executors.get(0)
+        if info is None or info["flags"].broken is not None or info["flags"].shutdown:
+            return []
+        mgr = [t for t in (res.sched.snapshot or []) if t["pid"] == 100 and t["role"] == "manager"]
+        if not mgr or any((t.get("waits_for") or {}).get("acquirer_alive") is False or t["what"] in ("read", "sem", "lock", "waitpid")
+                          for t in mgr):
+            return []
+        bound = 20.0 + 3 * res.spec["knobs"].get("J", 0)
+        for f in X.injected_kills(res):
+            p = res.kernel.procs[f[1]]
+            if p.role != "worker" or p.orig_ppid != 100:
+                continue
+            announced = any(n[0] == "mpinfo" and n[1] == p.pid and n[2] <= f[5] + 1e-9 for n in res.obs.notes)
+            if not announced and res.sched.now - f[5] > bound:
+                return [V(self.id, "C02/death-not-detected-within-bound",
+                          "worker %d was killed (signal %d) at t=%.3f; %.1f virtual seconds and %d steps later the pool is "
+                          "still in service, not flagged broken, and the manager thread is in its normal loop" % (
+                              p.pid, f[2], f[5], res.sched.now - f[5], res.sched.steps))]
+        return []
+
     def check(self, res):
         pid = self.id
         out = hang_violations(res, pid)
+        if not out and res.outcome == "step_cap":
+            return self.check_bounded_detection(res)
         if out or not X.conclusive(res):
             return out
         # no fabricated value, every future in a legal state
